@@ -42,6 +42,31 @@ theorem findLevel_exited {s : State} {id : Nat} {l : Level} (h : findLevel s id 
     subst h1
     exact ⟨List.mem_of_find?_eq_some hf, by simpa using List.find?_some hf⟩
 
+theorem find?_updLevel (id : Nat) (f : Level → Level) (hf : ∀ l, (f l).id = l.id) :
+    ∀ ls : List Level, (updLevel ls id f).find? (·.id == id) = (ls.find? (·.id == id)).map f
+  | [] => rfl
+  | a :: ls => by
+    have ih := find?_updLevel id f hf ls
+    by_cases ha : a.id = id
+    · have h1 : ((if (a.id == id) = true then f a else a).id == id) = true := by simp [ha, hf]
+      have h2 : (a.id == id) = true := by simp [ha]
+      show List.find? _ ((if (a.id == id) = true then f a else a) :: updLevel ls id f) = _
+      rw [List.find?_cons_of_pos (l := updLevel ls id f) h1, List.find?_cons_of_pos (l := ls) h2]
+      simp [ha]
+    · have h1 : ¬ ((if (a.id == id) = true then f a else a).id == id) = true := by simp [ha]
+      have h2 : ¬ (a.id == id) = true := by simp [ha]
+      show List.find? _ ((if (a.id == id) = true then f a else a) :: updLevel ls id f) = _
+      rw [List.find?_cons_of_neg (l := updLevel ls id f) h1, List.find?_cons_of_neg (l := ls) h2]
+      exact ih
+
+theorem findLevel_setLevel (s : State) (id : Nat) (f : Level → Level) (hf : ∀ l, (f l).id = l.id) :
+    findLevel (setLevel s id f) id = (findLevel s id).map (fun p => (f p.1, p.2)) := by
+  unfold findLevel setLevel
+  simp only [find?_updLevel id f hf]
+  cases h1 : s.stack.find? (·.id == id) with
+  | some l => simp
+  | none => cases h2 : s.exited.find? (·.id == id) <;> simp
+
 /-! ### the invariant -/
 
 structure Good (s : State) : Prop where
